@@ -19,6 +19,7 @@ thread_local! {
     static TICKS:  Cell<u64> = const { Cell::new(0) };
     static SITES:  RefCell<Vec<u64>> = RefCell::new(vec![0; N_SITES]);
     static PHASE:  Cell<u32> = const { Cell::new(NO_PHASE) };
+    static ENTRY_LEN: Cell<usize> = const { Cell::new(0) };
 }
 
 /// value of `BudgetExhausted::rule_type` while no sub-rule is being applied (lexing, parsing, word parsing, rendering)
@@ -47,9 +48,27 @@ pub fn set_budget(n: u64) {
 /// Number of ticks since the last `set_budget`.
 pub fn ticks() -> u64 { TICKS.with(|t| t.get()) }
 
-/// Called at the head of `SubRule::apply` with the rule type of the sub-rule.
+/// Called at the head of `SubRule::apply` with the rule type of the sub-rule and the word it is applied to.
 #[inline]
-pub fn enter_subrule(rule_type: u32) { PHASE.with(|p| p.set(rule_type)); }
+pub fn enter_subrule(rule_type: u32, word: &Word) {
+    PHASE.with(|p| p.set(rule_type));
+    ENTRY_LEN.with(|l| l.set(word_len(word)));
+}
+
+fn word_len(word: &Word) -> usize { word.syllables.iter().map(|s| 1 + s.segments.len()).sum() }
+
+/// A tick that also bounds growth: while a budget is set, a word that has grown beyond
+/// 128 + 32 x (its size when the current sub-rule started) counts as budget exhaustion at `site`.
+#[inline]
+pub fn tick_growth(site: u32, word: &Word) {
+    if BUDGET.with(|b| b.get()) == 0 { return }
+    if word_len(word) > 128 + 32 * ENTRY_LEN.with(|l| l.get()) {
+        let n = TICKS.with(|t| t.get());
+        BUDGET.with(|b| b.set(0));
+        std::panic::resume_unwind(Box::new(BudgetExhausted { dominant_site: site, last_site: site, ticks: n, rule_type: PHASE.with(|p| p.get()) }));
+    }
+    tick(site);
+}
 
 #[inline]
 pub fn tick(site: u32) {
